@@ -88,6 +88,19 @@ def run(chk):
             if not (g['def'] or g['static_local']) or g['extern']:
                 continue
             mutable.setdefault(g['name'], g)
+    # the session-id generator is whatever function-local static imb_set_session hands to the lock-cmpxchg helper (its name is not a fact)
+    allow = dict(ALLOW)
+    ctr = 'counter'
+    for tu_, f_ in P.find('imb_set_session')[:1]:
+        for _, _, ev in f_.calls('atomic_uint64_inc'):
+            for a in ev['e'].get('a', []):
+                for n_ in cf.walk(a):
+                    if n_.get('k') == 'un' and n_['op'] == '&':
+                        br = cf.base_ref(n_['e'])
+                        if br is not None and br.get('g') and mutable.get(br['n'], {}).get('static_local'):
+                            ctr = br['n']
+    if ctr != 'counter':
+        allow[ctr] = allow.pop('counter')
     writers = {}
     g2 = chk.rule('G2', 'every writer / address-taker of a mutable global is allow-listed', floor=5)
     nfun = 0
@@ -101,12 +114,12 @@ def run(chk):
         if g.get('tls'):
             g1.bad(n, g['loc'], 'thread-local library state %s (%s)' % (n, g['type']))
             continue
-        if n in ALLOW:
-            g1.ok(n, {'type': g['type'], 'reason': ALLOW[n][0]})
+        if n in allow:
+            g1.ok(n, {'type': g['type'], 'reason': allow[n][0]})
             for fn, kind, loc in sorted(ws):
-                g2.check(fn in ALLOW[n][1], '%s<-%s' % (n, fn), loc,
+                g2.check(fn in allow[n][1], '%s<-%s' % (n, fn), loc,
                          '%s of library-global %s in %s, which is not one of its documented writers %s' % (
-                             kind, n, fn, sorted(ALLOW[n][1])), detail=kind)
+                             kind, n, fn, sorted(allow[n][1])), detail=kind)
         elif not ws:
             g1.ok(n, {'type': g['type'], 'note': 'non-const but never written nor address-taken'})
             g1.note('%s (%s) is non-const but never written' % (n, g['loc']))
@@ -121,16 +134,16 @@ def run(chk):
     # ---- G3 documented use
     g3 = chk.rule('G3', 'counter only advanced through atomic_uint64_inc; imb_errno read only by imb_get_errno', floor=2)
     for tu, f in P.find('imb_set_session'):
-        uses = [ev for _, _, ev in f.events() if any(n.get('k') == 'ref' and n['n'] == 'counter' for n in
+        uses = [ev for _, _, ev in f.events() if any(n.get('k') == 'ref' and n['n'] == ctr for n in
                                                      cf.walk(ev.get('e') or ev.get('lhs') or ev.get('val') or {}))]
         for _, _, ev in f.events(('assign',)):
             br = cf.base_ref(ev['lhs'])
-            if br is not None and br['n'] == 'counter':
-                g3.bad('counter', ev['loc'], 'session counter written without the atomic helper')
+            if br is not None and br['n'] == ctr:
+                g3.bad(ctr, ev['loc'], 'session counter written without the atomic helper')
         for _, _, ev in f.calls():
             for a in ev['e'].get('a', []):
-                if any(n.get('k') == 'ref' and n['n'] == 'counter' for n in cf.walk(a)):
-                    g3.check(ev['e'].get('fn') == 'atomic_uint64_inc', 'counter@' + str(ev['e'].get('fn')), ev['loc'],
+                if any(n.get('k') == 'ref' and n['n'] == ctr for n in cf.walk(a)):
+                    g3.check(ev['e'].get('fn') == 'atomic_uint64_inc', ctr + '@' + str(ev['e'].get('fn')), ev['loc'],
                              'session counter passed to %s, not the lock-cmpxchg helper' % ev['e'].get('fn'))
     readers = set()
     for tu in P.tus():
